@@ -51,6 +51,10 @@ def capture(seed=0, n=40, **kw):
         if rnd.random() < 0.5: watch.append(buf.inPorts[0])                 # a port aliasing regs[0]
         if rnd.random() < 0.3: watch.append(buf.outPorts[0])
         wv = q(Waveform, s, 'wv', list(watch))
+        if rnd.random() < 0.4:
+            # the recorder in a clock domain of its own (as test benches do): it must still sample what the wires carried going
+            # into the edge, whichever domain the simulator visits first
+            wv.clockDriver = py4hw.ClockDriver('rec_clk', base=s.clockDriver)
         sim = q(s.getSimulator)
         def wire_of(x): return x if isinstance(x, py4hw.Wire) else x.wire
         uniq = []
@@ -107,6 +111,6 @@ def main(tier, seed, only=None):
                                    'callee contracts: Waveform.getwire(x) returns the wire of x, w.get() returns w.value',
                                    'that clock() runs exactly once per enabled edge and before pending updates are applied is C05',
                                    common.dropped_note()],
-                      bounded_parts=[{'what': 'random small designs with watch lists containing wires, ports aliasing a watched wire, duplicated entries; runs of 0..9 cycles with repeating values, two runs separated by clear(); samples compared with the pre-edge values; get_wavedrom decoded back by an independent run-length decoder (clock row and every row span cycles+2)',
+                      bounded_parts=[{'what': 'random small designs with watch lists containing wires, ports aliasing a watched wire, duplicated entries, the recorder in the system clock domain or in one of its own; runs of 0..9 cycles with repeating values, two runs separated by clear(); samples compared with the pre-edge values; get_wavedrom decoded back by an independent run-length decoder (clock row and every row span cycles+2)',
                                       'designs': 8 * (15 if tier == 'quick' else 150)}],
                       trusted_extra=['heap-mode VC generator pvc/heap.py'], canary_ok=work.canary(), min_obligations=5)
